@@ -178,7 +178,7 @@ Fixpoint abs_actions (value : pyval) (vo : N) (acts : list action) (st : state) 
   end.
 
 Definition pairs_of (cs : list coord) : list (option N * pyval) :=
-  map (fun p => (pc_parent p, pc_ref p)) (del_order cs).
+  map (fun p => (pc_parent p, pc_ref p)) (leaf_coords cs).
 
 Definition create_walk (segs : list seg) (value : pyval) (vo : option N) (d : node) :=
   let s := sv_start vo (init_state d) in
@@ -187,14 +187,15 @@ Definition create_walk (segs : list seg) (value : pyval) (vo : option N) (d : no
 (* GUARD of one operation: the invariants (ruamel containers carry the anchor
    attribute; every container object is held once) hold of the document the
    operation starts from, and the operation stays inside the proved fragment
-   (C03_set_exact's hypotheses for every change; C04's guard for a delete) *)
+   (C03_set_exact's hypotheses for every change; the coordinates of a delete each
+   locate a node - no condition on their number or order since fix 17f9ea8) *)
 Definition op_ok (op : hop) (d : node) : bool :=
   wf_attr d &&
   match op with
   | HSet cs v f vo =>
       let s := sv_start vo (init_state d) in
       acts_ok v (fst s) (flat_map (set_actions f) cs) (snd s)
-  | HDelete cs => wf_docb d && no_dup_no_disorder d (pairs_of cs)
+  | HDelete cs => wf_docb d && del_all_located d (pairs_of cs)
   | HCreate segs v f vo =>
       wf_docb d &&
       match create_walk segs v vo d with
